@@ -125,6 +125,15 @@ func runC03(c *Ctx) {
 			}
 		}
 	}
+	// the envelope is discarded only by reset() (which signals Reset to the backend)
+	for _, site := range c.Sites("st:Conn.recipients") {
+		if _, _, v := storedField(site); isNilConst(v) {
+			R.Ob(c.siteKey(site, "recipients discarded only by reset()"), c.P.InstrPos(site), funcName(site.Parent()) == "(*Conn).reset", "Conn.recipients is cleared in "+funcName(site.Parent())+": the recipients are forgotten (and the limit restarts) without a Reset signalled to the backend")
+		}
+	}
+	for _, site := range c.Sites("st:Conn.fromReceived=false") {
+		R.Ob(c.siteKey(site, "sender discarded only by reset()"), c.P.InstrPos(site), funcName(site.Parent()) == "(*Conn).reset", "Conn.fromReceived is cleared in "+funcName(site.Parent())+" outside reset()")
+	}
 	for _, site := range c.Sites("st:Conn.recipients") {
 		_, _, v := storedField(site)
 		if isNilConst(v) {
@@ -143,16 +152,7 @@ func runC03(c *Ctx) {
 		R.Ob(c.siteKey(site, "recipients grows by append to itself"), c.P.InstrPos(site), ok, "recipients must be extended by append(c.recipients, rcpt); got "+describe(v))
 	}
 
-	R.Rule("R-reset-effects", "E1 must-summary", "reset() certainly clears sender, recipients, byte count and LMTP status, aborts an open pipe and signals Session.Reset", 7)
-	if f := c.A.Func("(*Conn).reset"); f != nil {
-		m := s.Must(f)
-		for _, l := range []string{"st:Conn.fromReceived=false", "st:Conn.recipients=nil", "st:Conn.bytesReceived=0", "st:Conn.bdatStatus=nil"} {
-			R.Ob("(*Conn).reset/"+l, c.P.Pos(f.Pos()), m[l], "not on every path; events on all paths: "+fmt.Sprint(m.list()))
-		}
-		c.obMustUnder("Session.Reset", f, []string{lSessReset}, aSessSet)
-		c.obMustUnder("abort pipe", f, []string{"pipe-abort"}, aPipeOpen)
-		c.obMustUnder("bdatPipe=nil", f, []string{"st:Conn.bdatPipe=nil"}, aPipeOpen)
-	}
+	ruleResetEffects(c)
 
 	R.Rule("R-reset-at-end", "E2 must-pass-through", "every transaction end passes through reset() (or Close after a backend panic) before the handler returns", 6)
 	if f := c.A.Func("(*Conn).handleData"); f != nil {
@@ -248,5 +248,22 @@ func ruleAbandonResets(c *Ctx) {
 	}
 	if f := c.A.Func("(*Conn).handleGreet"); f != nil {
 		c.obMustUnder("repeated EHLO resets", f, []string{lReset}, aSessSet, `parseHelloArgument(param2)#1 == nil`)
+	}
+}
+
+// ruleResetEffects (C03, C04): what reset() certainly does. For C04 it is the reason why a reply can only report
+// the outcome of the transaction it belongs to: no per-message state survives into the next one.
+func ruleResetEffects(c *Ctx) {
+	R := c.R
+	_, s := c.Std()
+	R.Rule("R-reset-effects", "E1 must-summary", "reset() certainly clears sender, recipients, byte count and LMTP status, aborts an open pipe and signals Session.Reset", 7)
+	if f := c.A.Func("(*Conn).reset"); f != nil {
+		m := s.Must(f)
+		for _, l := range []string{"st:Conn.fromReceived=false", "st:Conn.recipients=nil", "st:Conn.bytesReceived=0", "st:Conn.bdatStatus=nil"} {
+			R.Ob("(*Conn).reset/"+l, c.P.Pos(f.Pos()), m[l], "not on every path; events on all paths: "+fmt.Sprint(m.list()))
+		}
+		c.obMustUnder("Session.Reset", f, []string{lSessReset}, aSessSet)
+		c.obMustUnder("abort pipe", f, []string{"pipe-abort"}, aPipeOpen)
+		c.obMustUnder("bdatPipe=nil", f, []string{"st:Conn.bdatPipe=nil"}, aPipeOpen)
 	}
 }
